@@ -9,14 +9,11 @@
    Variants:  [V fs fo fl fp] = the code with the first three repairs and fix_ghost, plus any subset of fix_sent, fix_order,
               fix_l2stop, fix_prune;  [Vg ...] = the same without fix_ghost (historical);
               [Vq ...] = the same without fix_presend (historical);
-              [Vt ...] = the same without fix_l2tp;
-              [head] = Vt true false true true = /repo HEAD (committed: 7e92d8e, e0693a6, d70a5ae, 9b87063, d95fed1, 7faf7f9,
-              5478db8, 4de5a6b).  Two findings are not repaired in /repo: fix_order (provider calls sent from unordered
-              goroutines; no patch, RepairSpec.v is the specification of that repair) and fix_l2tp (lifecycle events of
-              PPP-over-L2TP sessions are not decoded; fixes/C09_l2tp_lifecycle.patch).  fix_l2tp only changes how the events
-              of an l2tp session are READ ([l2tp_view]); [lstep] itself does not depend on it, so every theorem for V holds
-              for /repo HEAD on IPoE, PPPoE and l2gw sessions, and on l2tp sessions for the events as HEAD reads them.
-              [repaired] = V true true true true;  [before_4de5a6b], [before_5478db8], [before_7faf7f9], [before_9b87063], [defective]
+              [Vt ...] = the same without fix_l2tp (historical);
+              [head] = V true false true true = /repo HEAD (committed: 7e92d8e, e0693a6, d70a5ae, 9b87063, d95fed1, 7faf7f9,
+              5478db8, 4de5a6b, a967234).  The one finding not repaired in /repo is fix_order (provider calls sent from
+              unordered goroutines; no patch, RepairSpec.v is the specification of that repair).
+              [repaired] = V true true true true;  [before_a967234], [before_4de5a6b], [before_5478db8], [before_7faf7f9], [before_9b87063], [defective]
               are historical.
    Hypotheses:  W  lrun_wraps = false — no uint64 cumulative wrapped; C09_no_wrap_if_total_small derives it from the
                    readings alone, for every variant and access type;
@@ -316,18 +313,18 @@ Print Assumptions C09_delivered_strict_refuted.
 
 
 
-(* known finding handleSessionLifecycle-l2tp-payload-not-decoded: for a PPP-over-L2TP session /repo HEAD reads every lifecycle
-   event - also the one with state released - as an announcement on interface 0: a Start, Interims with the counters of
-   interface 0, and NO Stop when the session is released *)
-Theorem C09_l2tp_never_stopped_refuted :
-  let evs := [EActive 5 0; ETick (rd 5 100) true; EReleased (rd 5 200)] in
-  outputs (snd (lrun head false sst0 (map (l2tp_view head true) evs))) = [Start; Interim c4z true] /\
-  cache (fst (lrun head false sst0 (map (l2tp_view head true) evs))) <> None /\
-  map status_of (outputs (snd (lrun repaired false sst0 (map (l2tp_view repaired true) evs)))) = [1; 3; 2].
-Proof. vm_compute. repeat split; discriminate. Qed.
-Print Assumptions C09_l2tp_never_stopped_refuted.
 
 (* ================= historical: fixed in /repo ================= *)
+(* fixed in a967234 (handleSessionLifecycle-l2tp-payload-not-decoded): for a PPP-over-L2TP session the code read every lifecycle
+   event - also the one with state released - as an announcement on interface 0: a Start, Interims with the counters of
+   interface 0, and NO Stop when the session is released *)
+Theorem C09_before_a967234_l2tp_refuted :
+  let evs := [EActive 5 0; ETick (rd 5 100) true; EReleased (rd 5 200)] in
+  outputs (snd (lrun before_a967234 false sst0 (map (l2tp_view before_a967234 true) evs))) = [Start; Interim c4z true] /\
+  cache (fst (lrun before_a967234 false sst0 (map (l2tp_view before_a967234 true) evs))) <> None /\
+  map status_of (outputs (snd (lrun head false sst0 (map (l2tp_view head true) evs)))) = [1; 3; 2].
+Proof. vm_compute. repeat split; discriminate. Qed.
+Print Assumptions C09_before_a967234_l2tp_refuted.
 (* fixed in 4de5a6b (restart-while-interim-unanswered-forgets-last-sent): 100 is sent, the process restarts before the response,
    the session is restored and released with no dataplane reading: the Stop carried 7 *)
 Theorem C09_before_4de5a6b_restart_refuted :
